@@ -80,8 +80,10 @@ FinalVerdict(s) ==
     ELSE "ok"
 
 (* C12 on the final observation: the bookkeeping is back to its initial depth *)
+(* (a run that COMPLETED must be balanced whatever the machine thinks of it -- also where the machine left its
+   domain or expected an exception: an error swallowed on the way leaves the bookkeeping of the interrupted call) *)
 FinalBalance(s) ==
-    IF s.status # "done" \/ Fin.raised # "" THEN "skip"
+    IF Fin.raised # "" THEN "skip"
     ELSE IF Fin.d # InitDepths THEN "violation:final-depths"
     ELSE IF ~("i" \in DOMAIN Fin.ctx /\ Fin.ctx.i = 0) THEN "violation:final-context"
     ELSE "ok"
@@ -124,7 +126,7 @@ ProbeStep ==
            top == okpos /\ LoopDepth(m) = 0
            bal == ~top \/ (e.d = InitDepths /\ "i" \in DOMAIN e.ctx /\ e.ctx.i = 0)
        IN IF m.status = "undefined"
-          THEN /\ Emit("skip:undefined:" \o m.why, IF v12 = "ok" THEN "skip" ELSE v12)
+          THEN /\ Emit("skip:undefined:" \o m.why, IF v12 = "ok" THEN FinalBalance(m) ELSE v12)
                /\ l' = NE + 1 /\ UNCHANGED <<m, v01, v12>>
           ELSE IF depok
           THEN /\ m' = RunToProbe(m)
